@@ -50,6 +50,9 @@ def run_k(ctx, kres):
         # the SQLite backend answers some calls differently from the file backend (C20 reports those); what C05 asks of it is persistence: what is found after a restart
         v += k_suite(ctx, kres, "K05-persist-sqlite", dbt, lambda m: m["op"] in ("findinit", "find") and m["cat"] in ("nums", "rvclass"), sig_of=sig_of)
     v += fault_suite(ctx, kres)
+    # unit level: ByteString serialise / chainDeserialise / long_val / split / substr / xor (the primitives of the stored encodings)
+    from .. import pure
+    v += pure.run_group(ctx, kres, "K05-pure-bytestring", "bytestring", 300 if ctx.quick else 6000)
     return v
 
 
